@@ -264,6 +264,11 @@ func (cc *Conn) AsyncPing(receivedPong func()) (func(), error) {
 		removeTokenHandler()
 		return nil, fmt.Errorf("cannot write request: %w", err)
 	}
+	// The caller is going to wait for the pong. When it is a handler, it occupies the loop that
+	// reads the received messages: let another loop take over (as Do does before it waits), otherwise
+	// the messages in front of the pong are not processed meanwhile and, once they fill the queue,
+	// the pong is never read.
+	cc.receivedMessageReader.TryToReplaceLoop()
 	return removeTokenHandler, nil
 }
 
